@@ -425,6 +425,10 @@ def run(spec):
             r0, ra, rb, rexp = rv[rupd]
             # a third port whose update names its own updater (applied after the other two: port order)
             third = len(spec['batch']) % 2 == 1 and rupd == 'accumulate'
+            # the first port's update may itself be an explicit list of updates (which the engine must not extend)
+            if rupd == 'accumulate' and not third:
+                ra = {'_multi_update': [1, 0]}
+            ra_before = copy.deepcopy(ra)
 
             class Batch(Process):
                 def ports_schema(self):
@@ -433,18 +437,21 @@ def run(spec):
                     sch['rb'] = {'_default': r0, '_updater': rupd}
                     if third:
                         sch['rc'] = {'_default': r0, '_updater': rupd}
+                    # a dictionary-valued variable reached through a port of its own: setting it to {} empties it
+                    sch['rd'] = {'_default': {'a': 1}, '_updater': 'set'}
                     return sch
 
                 def next_update(self, timestep, states):
                     if self.parameters.get('done'):
                         return {}
-                    out = dict(update, ra=ra, rb=rb)
+                    out = dict(update, ra=ra, rb=rb, rd={})
                     if third:
                         out['rc'] = {'_updater': 'set', '_value': 100}
                     return out
             proc = Batch({'timestep': 1.0})
             topo = {k: (k,) for k in schema}
             topo['ra'] = topo['rb'] = ('rootv',)
+            topo['rd'] = ('rootd',)
             if third:
                 topo['rc'] = ('rootv',)
                 rexp = 100
@@ -456,7 +463,11 @@ def run(spec):
             V.check('engine_value', after['rootv'] == rexp if rexp is not None else after['rootv'] in (ra, rb),
                     lambda: ('root-level variable (updater %s) with two updates %r, %r in one batch: %r -> %r' % (
                         rupd, ra, rb, r0, after['rootv'])))
-            after = {k: v for k, v in after.items() if k != 'rootv'}
+            V.check('update_not_mutated', ra == ra_before,
+                    lambda: ('the explicit _multi_update list a port returned was changed by the engine', ra_before, ra))
+            V.check('engine_value', after['rootd'] == {},
+                    lambda: ('dictionary-valued variable (updater set) updated with {}: holds %r' % (after['rootd'],)))
+            after = {k: v for k, v in after.items() if k not in ('rootv', 'rootd')}
         for p, var in var_of.items():
             got = val(after, p)
             exp = model_state[p]
